@@ -61,6 +61,35 @@ func (o *C14) sweep(w *World) {
 					return
 				}
 			}
+			// ... and, for signer-set events, two copies that spell DIFFERENT members in the chain's native address
+			// notation (admissible or not is the hub's decision; if both are, they are different events)
+			if se, ok := truth.(*mhub2types.SignerSetTxExecutedEvent); ok && len(se.Members) > 0 {
+				mk := func(flip bool) mhub2types.ExternalEvent {
+					c := *se
+					c.Members = nil
+					for i, mm := range se.Members {
+						x := *mm
+						if i == 0 {
+							h := strings.TrimPrefix(strings.ToLower(x.ExternalAddress), "0x")
+							if flip {
+								h = flipHexChar(h, len(h)-1)
+							}
+							x.ExternalAddress = "Mx" + h
+						}
+						c.Members = append(c.Members, &x)
+					}
+					return &c
+				}
+				m1, m2 := mk(false), mk(true)
+				if m1.Validate(mhub2types.ChainID(ch)) == nil && m2.Validate(mhub2types.ChainID(ch)) == nil {
+					w.St.Check("C14:separate-records")
+					w.St.Probe("enumerated:" + tn + ":member_notation")
+					if bytes.Equal(m1.Hash(), m2.Hash()) {
+						w.Fail("C14", "separate-records", tn+":member_notation", fmt.Sprintf("%s nonce %d: two admissible %s copies naming different first members (%s / %s) get the same claim identifier %x", ch, n, tn, m1.(*mhub2types.SignerSetTxExecutedEvent).Members[0].ExternalAddress, m2.(*mhub2types.SignerSetTxExecutedEvent).Members[0].ExternalAddress, m1.Hash()))
+						return
+					}
+				}
+			}
 			// ... and every shift of one or two characters between any two of its variable-length fields
 			for _, x := range crossShifts(truth) {
 				if x.ev.Validate(mhub2types.ChainID(ch)) != nil || x.ev.String() == truth.String() {
